@@ -38,6 +38,7 @@ const (
 	RegVarAndOp         // eval.RegVarAndOp(map of the variables)
 	RegUndefined        // nothing registered, AllowUndefinedVariable
 	RegHalf             // every second variable registered, AllowUndefinedVariable for the rest
+	RegMixed            // the first half with explicit keys (KeyBase + i*KeyStride), the rest through GetOrRegisterKey
 	regModes
 )
 
@@ -400,6 +401,18 @@ func registerVars(cc *eval.Config, u *Universe) {
 				eval.GetOrRegisterKey(cc, v.Name)
 			}
 		}
+	case RegMixed:
+		stride := u.KeyStride
+		if stride == 0 {
+			stride = 1
+		}
+		half := (len(u.Vars) + 1) / 2
+		for i, v := range u.Vars[:half] {
+			cc.VariableKeyMap[v.Name] = eval.VariableKey(u.KeyBase + i*stride)
+		}
+		for _, v := range u.Vars[half:] {
+			eval.GetOrRegisterKey(cc, v.Name)
+		}
 	}
 }
 
@@ -437,6 +450,20 @@ type Fetcher struct {
 }
 
 func NewFetcher(u *Universe, cc *eval.Config, log *Log) *Fetcher {
+	// the harness hands out distinct explicit keys, so the key map stays injective whatever
+	// GetOrRegisterKey adds to it
+	if len(cc.VariableKeyMap) > 1 {
+		owner := make(map[eval.VariableKey]string, len(cc.VariableKeyMap))
+		for n, k := range cc.VariableKeyMap {
+			if o, dup := owner[k]; dup {
+				if o > n {
+					o, n = n, o
+				}
+				log.KeyErrs = append(log.KeyErrs, fmt.Sprintf("variables %q and %q are registered under the same key %d", o, n, k))
+			}
+			owner[k] = n
+		}
+	}
 	return &Fetcher{Vars: u.Bound(), Fail: u.Fail(), Log: log, Keys: cc.VariableKeyMap}
 }
 
